@@ -57,8 +57,20 @@ class History:
                             u.m.t["/".join(parts[:i])] = "d"
             u.populate(cfg.get("n_root", 4), cfg.get("n_out", 4))
             set_read_size(cfg.get("read_size"))
-            sess = Session(u, recursive=cfg.get("recursive", True), full=cfg.get("full", False), as_bytes=cfg.get("bytes", False),
-                           spelling=cfg.get("spelling", "abs"), observer=cfg.get("observer", "inotify"), delay=cfg.get("delay", 0.1))
+            import errno as _errno
+            import time as _time
+
+            for attempt in range(6):
+                try:
+                    sess = Session(u, recursive=cfg.get("recursive", True), full=cfg.get("full", False), as_bytes=cfg.get("bytes", False),
+                                   spelling=cfg.get("spelling", "abs"), observer=cfg.get("observer", "inotify"), delay=cfg.get("delay", 0.1))
+                    break
+                except OSError as e:
+                    # the machine's inotify instances / watches are exhausted by other jobs: back off, never a verdict
+                    if e.errno not in (_errno.EMFILE, _errno.ENFILE, _errno.ENOSPC) or attempt == 5:
+                        raise
+                    self.c("environment_backoffs")
+                    _time.sleep(1.0 + attempt)
             self.sess = sess
             tree = restrict(sess.initial, True)
             pacer = Pacer()
